@@ -33,7 +33,8 @@ CLAIM = {
             "else None; the search must not depend on the own lookup or on the owner having an entry; the stored key TupleKey and "
             "the request TupleReq hash (name, descriptor) identically and are equivalent iff both are equal; Vec<S> returns the first provider's answer; JarSuperProv::remap keeps every provider/class/super class in "
             "order with each name through map_class. map_desc copies every char, replaces exactly the segment "
-            "between `L` and the next `;` by map_class of it, refuses `L;` and a missing `;`. Namespace<N> is constructed only in "
+            "between `L` and the next `;` by map_class of it, refuses `L;` and a missing `;`, and its scanning loop (while let / loop + let-else / "
+            "loop + match, decided on path conditions that do not depend on the spelling) is left only when `iter.next()` is None or by an error. Namespace<N> is constructed only in "
             "quill::tree::names and Namespace::new refuses id >= N.",
     "note": "Not decided: grammar-wide correctness of map_desc on all descriptors (it relies on the validity invariant of the "
             "descriptor newtypes, C18), shadowed members, X->Y->X identity. Known findings (2): the super-class search of "
@@ -122,6 +123,7 @@ def r06_2(q, R, spec):
     sa = spec["tables"]["remapper_a"]
     b = q.fn("remapper_a")
     if R.anchor(rid, "fn Mappings::remapper_a", b) and R.anchor(rid, "remapper_a parameters", len(b["params"]) == len(sa["params"]), b["sp"]):
+        b = U.unqualified(b)
         nz = U.Norm(b, sa["params"], skips_transparent=True)          # who is skipped is decided by R06.8
         env = U.build_env(sa["params"], sa["let"])
         res = U.result_term(nz)
@@ -137,6 +139,7 @@ def r06_2(q, R, spec):
     sb = spec["tables"]["remapper_b"]
     b = q.fn("remapper_b")
     if R.anchor(rid, "fn Mappings::remapper_b", b) and R.anchor(rid, "remapper_b parameters", len(b["params"]) == len(sb["params"]), b["sp"]):
+        b = U.unqualified(b)
         nz = U.Norm(b, sb["params"], skips_transparent=True)          # who is skipped is decided by R06.8
         env = U.build_env(sb["params"], sb["let"])
         res = U.result_term(nz)
@@ -285,6 +288,7 @@ def r06_3(q, R, spec):
     sp_ = spec["super_prov_remap"]
     b = q.fn("remap", impl_ty="quill::remapper::JarSuperProv")
     if R.anchor(rid, "JarSuperProv::remap", b) and R.anchor(rid, "JarSuperProv::remap parameters", len(b["params"]) == 2, b["sp"]):
+        b = U.unqualified(b)             # `IndexSet::insert(&mut set, x)` is `set.insert(x)`
         nz = U.Norm(b, sp_["params"])
         env = U.build_env(sp_["params"], sp_["let"])
         res = U.result_term(nz)
@@ -330,7 +334,8 @@ def r06_4(q, R, spec):
     b = q.fn("map_desc", within="quill::remapper")
     if not R.anchor(rid, "fn remapper::map_desc", b) or not R.anchor(rid, "map_desc parameters", len(b["params"]) == 2, b["sp"]):
         return
-    nz0 = U.Norm(b, sm["params"])
+    b = U.unqualified(b)                 # `Iterator::next(&mut iter)` / `JavaString::push(&mut s, ..)` read as method calls
+    nz0 = U.Norm(b, sm["params"], skips_transparent=True)     # `match iter.next() { Some(x) => x, None => break }` has the value of `iter.next()`; the exits are accounted for below
     env0 = U.build_env(sm["params"])
     want_init = U.parse(sm["iter_init"], env0)
     iters = [lid for lid in nz0.mut if nz0.init_term(lid) == want_init]
@@ -356,28 +361,71 @@ def r06_4(q, R, spec):
     pj = [m for m in muts if m["name"] == "push_java"][0]
     pjs = [m for m in muts if m["name"] == "push_java_str"][0]
     pc = [m for m in muts if m["name"] == "push"][0]
-    loop_cond = [("iflet", env["next"], True)]
-    c = U.cond_terms(nz, root, pj)
-    R.inst(rid, "copy-every-char", nz.term(pj["args"][0]) == U.parse(sm["copy_char"], env) and c == loop_cond, sp=pj["sp"],
-           expect=["push_java(" + U.show(env["ch"]) + ")"] + U.show_conds(loop_cond), got=[H.render(pj)] + U.show_conds(c),
-           detail="every char of the descriptor is copied, unconditionally, inside `while let Some((_, ch)) = iter.next()`")
-    seg = loop_cond + [U.cond("if", U.parse(sm["segment_condition"], env), True), ("letelse", U.parse(sm["guard"], env), True)]
+    # the scanning loop: the innermost loop around the copy; it runs while `iter.next()` is Some, whatever the spelling
+    # (`while let Some(..) = iter.next()`, `loop { let Some(..) = iter.next() else { break }; .. }`, `loop { let ch = match iter.next() { Some(..) => .., None => break }; .. }`,
+    #  `loop { match iter.next() { Some(..) => { .. }, None => break } }`)
+    loops = [p for p in (H.parents_of(root, pj) or []) if p.get("k") in ("loop", "for")]
+    if not R.anchor(rid, "the copy sits in exactly one hand-written loop (`while let` / `loop`)", len(loops) == 1 and loops[0].get("k") == "loop", b["sp"]):
+        R.floor(rid, 7)
+        return
+    loop = loops[0]
+    is_next = ("is", "Some", env["next"])
+    outer = U.cond_terms_ex(nz, root, loop)
+    accounted = []                              # blocks evaluated when a recognised condition fails: judged with that condition
+
+    def conds_of(node):
+        return U.cond_terms_ex(nz, loop, node)
+
+    def loop_cond_ok(cs):
+        """first condition: this iteration's `iter.next()` is Some, otherwise the loop is left by `break`"""
+        return bool(cs) and cs[0][0] == is_next and len(cs[0][1]) >= 1 and all(U.is_plain(a, "break") for a in cs[0][1])
+
+    c = conds_of(pj)
+    accounted += [a for _, alts in c[:1] for a in alts]
+    R.inst(rid, "copy-every-char", nz.term(pj["args"][0]) == U.parse(sm["copy_char"], env) and not outer and len(c) == 1 and loop_cond_ok(c), sp=pj["sp"],
+           expect=["push_java(" + U.show(env["ch"]) + ")"] + U.show_conds_ex([is_next]) + ["otherwise: break"],
+           got=[H.render(pj)] + U.show_conds_ex([x for x, _ in outer + c]) + ["otherwise: " + "; ".join(H.render(a)[:60] for _, alts in c[:1] for a in alts)],
+           detail="every char of the descriptor is copied, unconditionally, in a loop that runs while `iter.next()` yields a char")
+    seg = [is_next, U.cond("if", U.parse(sm["segment_condition"], env), True), ("is", "Some", U.parse(sm["guard"], env))]
     mapped = U.parse(sm["mapped"], env)
-    c = U.cond_terms(nz, root, pjs)
-    R.inst(rid, "segment-condition", c == seg, sp=pjs["sp"], expect=U.show_conds(seg), got=U.show_conds(c),
+    c = conds_of(pjs)
+
+    def seg_ok(cs):
+        # after an `L` only: when the char is not `L` nothing else happens in this iteration (no else branch, or a plain `continue`)
+        return [x for x, _ in cs] == seg and loop_cond_ok(cs) and all(U.is_plain(a, "continue") for a in cs[1][1])
+
+    if [x for x, _ in c] == seg:
+        accounted += [a for _, alts in c for a in alts]
+    R.inst(rid, "segment-condition", not outer and seg_ok(c), sp=pjs["sp"], expect=U.show_conds_ex(seg), got=U.show_conds_ex([x for x, _ in outer + c]),
            detail="the class-name branch is taken exactly after an `L`, with start = position of the next char unless it is `;`, "
                   "end = position of the next `;`, both present")
     R.inst(rid, "segment-replaced-by-map_class", nz.term(pjs["args"][0]) == mapped, sp=pjs["sp"], expect=U.show(mapped),
            got=U.show(nz.term(pjs["args"][0])), detail="the appended name is map_class(&desc[start..end])")
-    c2 = U.cond_terms(nz, root, pc)
-    R.inst(rid, "segment-terminator", c2 == seg and nz.term(pc["args"][0]) == U.parse(sm["terminator"], env)
+    c2 = conds_of(pc)
+    R.inst(rid, "segment-terminator", not outer and seg_ok(c2) and nz.term(pc["args"][0]) == U.parse(sm["terminator"], env)
            and order[id(pjs)] < order[id(pc)] and order[id(pj)] < order[id(pjs)], sp=pc["sp"],
-           expect="push(';') right after the mapped name, under the same conditions", got=[H.render(pc)] + U.show_conds(c2))
-    lets = [n for n in H.walk(root) if n.get("k") == "let" and "els" in n and nz.term(n["init"]) == U.parse(sm["guard"], env)]
-    R.inst(rid, "malformed-is-error", len(lets) == 1 and H.is_err_exit(lets[0]["els"]), sp=(lets[0]["sp"] if lets else b["sp"]),
+           expect="push(';') right after the mapped name, under the same conditions", got=[H.render(pc)] + U.show_conds_ex([x for x, _ in outer + c2]))
+    guard_alts = [alts for x, alts in c if x == seg[2]]
+    R.inst(rid, "malformed-is-error", len(guard_alts) == 1 and len(guard_alts[0]) >= 1 and all(H.is_err_exit(a) for a in guard_alts[0]),
+           sp=(guard_alts[0][0].get("sp") if guard_alts and guard_alts[0] else b["sp"]),
+           got=[H.render(a)[:80] for alts in guard_alts for a in alts],
            detail="`L;` or a missing `;` makes map_desc return Err instead of guessing")
+    # nothing else leaves or shortens an iteration: an exit that is not the `break` at the end of the input, the `continue` of a non-`L`
+    # char or an error would drop the rest of the descriptor (or of the iteration)
+    stray = []
+    for x in H.walk(loop["body"], into_closures=False):
+        if x.get("k") not in ("ret", "break", "continue") or (x.get("k") == "ret" and H.is_err_exit(x)):
+            continue
+        inner = [p for p in (H.parents_of(loop["body"], x) or []) if p.get("k") in ("for", "loop")]
+        if inner and x.get("k") != "ret" and "label" not in x:
+            continue
+        if any(any(y is x for y in H.walk(a)) for a in accounted):
+            continue
+        stray.append(H.render(x)[:60])
+    R.inst(rid, "scan-reaches-the-end", not stray, sp=loop.get("sp"), got=stray, expect="the loop is left only at the end of the input or by an error",
+           detail="a `break` / `continue` / `return` other than the end-of-input exit, the skip of a non-`L` char and the error exits truncates the output")
     R.inst(rid, "result", res == U.parse(sm["result"], env), sp=b["sp"])
-    R.floor(rid, 7)
+    R.floor(rid, 8)
 
 
 # ------------------------------------------------------------------------------------ R06.5
